@@ -241,6 +241,13 @@ def main(argv=None):
 
     t0 = time.time()
     shards = mod.plan(args.tier)
+    scale = os.environ.get('TCV_SCALE')
+    if scale:
+        # development aid: the same plan with every random campaign's example count scaled (e.g. a tenth of `thorough`)
+        for sh in shards:
+            for k in ('examples', 'limit', 'values'):
+                if isinstance(sh.get(k), int):
+                    sh[k] = max(1, int(sh[k] * float(scale)))
     logdir = tempfile.mkdtemp(prefix=f'tcv-{pid}-log-')
     reg = sorted(str(p) for p in (ROOT / 'regressions' / pid).glob('*.json'))
     if reg:
